@@ -24,3 +24,10 @@ package ext
 //@ func IsInf
 //@   trusted
 //@   ensures result <==> ((sign >= 0 && isPosInf64(f)) || (sign <= 0 && isNegInf64(f)))
+
+//@ package sort
+
+// Search calls f only with 0 <= i < n (assumed; the closure is verified under that precondition).
+//@ func Search
+//@   trusted
+//@   ensures 0 <= result && result <= n
